@@ -360,6 +360,15 @@ def plan(tier):
                             '{publish, publish batch (only on an empty stream), close, kick} injected in front of its k-th mutex acquisition (k = 1..4; beyond the last = after it parked), then two more polls',
                       data='published values symbolic 64-bit, pairwise distinct', bounds='one subscriber operation overlapped by one publisher operation, interleaved at lock-region granularity',
                       outside='three or more overlapping operations; pre-emption inside a critical section', cbmc_extra=('--max-field-sensitivity-array-size', '1024')))
+    ahead = [[m, cfg, n0, b, k] for m in (0, 1, 2) for cfg in (0, 1, 2) for n0 in (0, 1) for b in (0, 2, 3) for k in (0, 1, 2)]
+    if tier == 'quick':
+        ahead = [v for v in ahead if v[0] == 0 or (v[1] + v[2] + v[3] + v[4]) % 3 == 1]
+    units.append(dict(engine='e1', name='pub_conc_ahead', tu='C16conc.cpp', entry='h_pub_conc_ahead', unwind=12, vectors=ahead, timeout=900,
+                      concrete=[([0, 0, 1, 0, 1], list(range(1, 9))), ([0, 1, 0, 2, 1], list(range(1, 9))), ([2, 2, 1, 3, 0], list(range(1, 9)))],
+                      space='as pub_conc, but one published value is still unread when next() is awaited (await_ready() moves the subscriber onto it, await_resume() fetches it): mode x configuration x 0..1 consumed values x '
+                            'publisher-thread operation {publish, close, kick} in front of the k-th mutex acquisition of that next() (k = 1..3), then two more polls',
+                      data='published values symbolic 64-bit, pairwise distinct', bounds='one subscriber operation overlapped by one publisher operation, interleaved at lock-region granularity',
+                      outside='batch publish onto a non-empty stream (std::deque growth at the front does not terminate in the encoding)', cbmc_extra=('--max-field-sensitivity-array-size', '1024')))
     return units
 
 
